@@ -875,6 +875,13 @@ def o_composition_expected(req):
 RT_INPUTS = [(3, 2.5, True), (-2, 0.5, False), (0, -1.25, True)]
 
 
+def _shape(s):
+    """ret_shape from its JSON form (lists -> the tuples hugr_interp expects)"""
+    if isinstance(s, list):
+        return (s[0], [_shape(x) for x in s[1]]) if s[0] == "tuple" else (s[0], _shape(s[1]))
+    return s
+
+
 def _lower_outcome(src, entry="entry", keep_ctx=False):
     """('rejected', msg) | ('crash', msg) | ('ok', module, g, cctx)"""
     import c13_prog as PG
@@ -956,7 +963,7 @@ def _call_sites(c, pby, callee_params):
 
     for s in c["stmts"]:
         op = s["op"]
-        if op == "natval":
+        if op in ("natval", "finv", "fmul"):
             continue
         v = _garg(s["v"]["ty"], pby) if s["v"]["ty"][0] != "arr" else None
         if op in ("ident", "discard", "tup"):
@@ -980,7 +987,7 @@ def _call_sites(c, pby, callee_params):
 
 def _entry_args(c, k, params):
     """real Guppy type arguments of the entry's call `k` of caller `c` (parameter order of the real signature)"""
-    import ast
+    import c13_prog as PG
     from guppylang_internals.tys import builtin as B
     from guppylang_internals.tys.arg import ConstArg, TypeArg
     from guppylang_internals.tys.const import ConstValue
@@ -996,7 +1003,7 @@ def _entry_args(c, k, params):
         else:
             a, v = ct[p.name]
             ty = a["ty"] if a["ty"][0] == "c" else k["tmap"][a["ty"][1]]
-            args.append(ConstArg(ConstValue(conc[ty[1]](), ast.literal_eval(v))))
+            args.append(ConstArg(ConstValue(conc[ty[1]](), PG.lit_value(v))))
     return args
 
 
@@ -1026,9 +1033,20 @@ def _prog_tie(ctx):
             if probs:
                 ctx.violation("prog:" + PG.src_hash(c["source"] + entry), f"fixed program `{c.get('kind', '')}` entry {entry}: {probs[0][:400]}",
                               {"source": c["source"], "entry": entry, "problems": probs[:10]})
+        for run in c.get("runs", []):
+            # recorded run-time results (reference Hugr interpreter on /repo's lowering)
+            r = _lower_outcome(c["source"], run["entry"])
+            shape = json.loads(json.dumps(run["ret_shape"]), object_hook=None)
+            shape = _shape(shape)
+            got = repr(hi.run(r[2].hugr, run["entry"], list(run["args"]), ret_shape=shape).outcome()) if r[0] == "ok" else r[0] + ": " + r[1]
+            ctx.count("prog-run:" + PG.src_hash(c["source"]) + run["entry"], nontrivial=True, kind="prog:corpus-run:" + ("ok" if got == run["expect"] else "bad"))
+            if got != run["expect"]:
+                ctx.violation("prog:" + PG.src_hash(c["source"] + run["entry"]),
+                              f"fixed program `{c.get('kind', '')}`: {run['entry']}{tuple(run['args'])} computes {got}, expected {run['expect']}",
+                              {"source": c["source"], "entry": run["entry"], "args": run["args"], "got": got, "expected": run["expect"]})
 
     # generated programs -----------------------------------------------------------------------
-    n_prog = ctx.n(40, 600)
+    n_prog = ctx.n(30, 500)
     pend = []          # caller instances awaiting the model rounds
     unsupported = 0
     for _ in range(n_prog):
